@@ -98,6 +98,7 @@ theorem slice_compose (s : Src) (hdt : ∀ c, s = .cont c → 0 < c.dt) (a b c d
 
 /-! ## `None` bounds and time strings -/
 
+
 /-- `None` stands for the source's own start/stop; integers are taken as they are; a time string
     counts from the begin when non-negative and from the end when negative. -/
 theorem getitem_spec (s : Src) (hne : s.len ≠ 0) (hdt : ∀ c, s = .cont c → 0 < c.dt) (a b : Bound) :
@@ -149,6 +150,54 @@ theorem cont_getitem_none (c : Cont) (hdt : 0 < c.dt) :
     intro x hx
     have := mem_samplesFrom c.dt hdt c.data c.start x hx
     simp [inWin, this.1, this.2]
+
+/-! ## Composition at the `Slice.__getitem__` level (with the empty-source shortcut) -/
+
+theorem len_eq_samples_length (s : Src) : s.len = s.samples.length := by
+  cases s with
+  | cont c =>
+    simp only [Src.len, Src.samples, Cont.samples]
+    generalize c.start = t0
+    induction c.data generalizing t0 with
+    | nil => rfl
+    | cons v vs ih => simp [samplesFrom, ← ih]
+  | ts l => rfl
+  | tags t => simp [Src.len, Src.samples, Tags.samples]
+
+theorem slice_keeps_dt (s : Src) (hdt : ∀ c, s = .cont c → 0 < c.dt) (a b : Int) :
+    ∀ c', s.slice a b = .cont c' → 0 < c'.dt := by
+  intro c' h
+  cases s with
+  | cont c0 =>
+    simp only [Src.slice, Src.cont.injEq] at h
+    rw [← h]; exact hdt c0 rfl
+  | ts l => simp [Src.slice] at h
+  | tags t => simp [Src.slice] at h
+
+/-- `s[a:b][c:d]` through `Slice.__getitem__` (where an empty slice returns itself) has exactly the
+    samples with `max(a,c) ≤ t < min(b,d)` — for every kind, every four integers, empty sources and
+    empty intermediate results included. -/
+theorem getitem_compose (s : Src) (hdt : ∀ c, s = .cont c → 0 < c.dt) (a b c d : Int) :
+    ((s.getitem (.ts a) (.ts b)).getitem (.ts c) (.ts d)).samples =
+      s.samples.filter (inWin (max a c) (min b d)) := by
+  by_cases h0 : s.len = 0
+  · rw [getitem_empty s h0, getitem_empty s h0]
+    have : s.samples = [] := List.length_eq_zero_iff.mp (by rw [← len_eq_samples_length]; exact h0)
+    rw [this]; rfl
+  · have hin : s.getitem (.ts a) (.ts b) = s.slice a b := by
+      unfold Src.getitem; rw [if_neg h0]; rfl
+    rw [hin, ← filter_inWin_inWin, ← slice_samples s hdt a b]
+    by_cases h1 : (s.slice a b).len = 0
+    · rw [getitem_empty _ h1]
+      have : (s.slice a b).samples = [] :=
+        List.length_eq_zero_iff.mp (by rw [← len_eq_samples_length]; exact h1)
+      rw [this]; rfl
+    · rw [getitem_spec _ h1 (slice_keeps_dt s hdt a b)]
+      rfl
+
+/-- Non-vacuity: an off-grid window inside an off-grid window on a continuous channel. -/
+example : (((Src.cont ⟨1000, 10, [0,1,2,3,4,5,6,7,8,9]⟩).getitem (.ts 1005) (.ts 1075)).getitem (.ts 1021) (.ts 2000)).samples
+    = [(1030, 3), (1040, 4), (1050, 5), (1060, 6), (1070, 7)] := by decide
 
 /-! ## Boolean masks -/
 
